@@ -14,6 +14,7 @@ import (
 	"testing/fstest"
 	"time"
 
+	"github.com/foxboron/go-uefi/efi/attributes"
 	"github.com/foxboron/go-uefi/efi/signature"
 	"github.com/foxboron/go-uefi/efivar"
 	"github.com/foxboron/go-uefi/efivarfs"
@@ -101,6 +102,7 @@ type c12Op struct {
 	vi     int
 	val    c12Val
 	signed bool
+	extra  attributes.Attributes // attribute bits the writer's definition has beyond the stock one
 }
 
 func c12Ops(tier string) []c12Op {
@@ -111,11 +113,27 @@ func c12Ops(tier string) []c12Op {
 			vals = c12DBVals()
 		}
 		for _, val := range vals {
-			ops = append(ops, c12Op{fmt.Sprintf("WriteVar(%s,%s)", v.v.Name, val.name), vi, val, false})
+			ops = append(ops, c12Op{name: fmt.Sprintf("WriteVar(%s,%s)", v.v.Name, val.name), vi: vi, val: val})
 		}
 		if v.isDB {
 			for _, val := range vals {
-				ops = append(ops, c12Op{fmt.Sprintf("WriteSignedUpdate(%s,%s)", v.v.Name, val.name), vi, val, true})
+				ops = append(ops, c12Op{name: fmt.Sprintf("WriteSignedUpdate(%s,%s)", v.v.Name, val.name), vi: vi, val: val, signed: true})
+			}
+		}
+		// the same variable addressed through a definition carrying more attribute bits than the
+		// stock one (update tools write dbx with APPEND_WRITE; dumps carry NON_VOLATILE): readers use
+		// the stock definition, which asks for a subset of what is stored
+		if vi == 0 || !v.isDB {
+			for _, x := range []attributes.Attributes{attributes.EFI_VARIABLE_APPEND_WRITE, attributes.EFI_VARIABLE_NON_VOLATILE} {
+				if v.v.Attributes&x != 0 {
+					continue
+				}
+				for _, val := range []c12Val{vals[1], vals[2]} {
+					ops = append(ops, c12Op{name: fmt.Sprintf("WriteVar(%s|0x%x,%s)", v.v.Name, uint32(x), val.name), vi: vi, val: val, extra: x})
+					if v.isDB {
+						ops = append(ops, c12Op{name: fmt.Sprintf("WriteSignedUpdate(%s|0x%x,%s)", v.v.Name, uint32(x), val.name), vi: vi, val: val, signed: true, extra: x})
+					}
+				}
 			}
 		}
 	}
@@ -146,17 +164,23 @@ func c12New(prepopulated bool) *c12World {
 	t := testfs.NewTestFS()
 	if prepopulated {
 		t = t.With(fstest.MapFS{c12Path(efivar.Db): &fstest.MapFile{Data: append([]byte{0x27, 0, 0, 0}, c12DBVals()[2].enc...)}})
+		// an ordinary variable as a dump has it: one attribute bit more than the stock definition
+		t = t.With(fstest.MapFS{c12Path(efivar.LoaderConfigTimeout): &fstest.MapFile{Data: append([]byte{0x07, 0, 0, 0}, c12PreRaw...)}})
 	}
 	return &c12World{t, t.Open()}
 }
 
+var c12PreRaw = []byte("pre-populated value")
+
 func (w *c12World) apply(vars []c12Var, op c12Op) error {
 	v := vars[op.vi]
 	m := c12Marshallable(v, op.val)
+	def := v.v
+	def.Attributes |= op.extra
 	if op.signed {
-		return w.e.WriteSignedUpdate(v.v, m, signerK1(), keys.C(1))
+		return w.e.WriteSignedUpdate(def, m, signerK1(), keys.C(1))
 	}
-	return w.e.WriteVar(v.v, m)
+	return w.e.WriteVar(def, m)
 }
 
 // key dumps the complete content of the store for the variables of the alphabet.
@@ -178,7 +202,7 @@ func init() {
 		ID:    "C12",
 		Level: "model_checking",
 		Rule: "explicit-state search over write histories on the real in-memory store (testfs): alphabet = WriteVar / WriteSignedUpdate x {db, PK, ordinary variable (quick); + KEK, dbx (thorough)} x values ordered by size {empty, 1-entry, 3-entry, 2-list database; raw 0/1/5/40/600/40000 bytes}, " +
-			"from an empty and a pre-populated store; a state is the complete content of the store, reached by replay on a fresh instance, deduplicated exactly; the search runs to the depth bound or to the fixpoint. In every state every variable is read back (raw reader, typed accessor) and compared with the reference register model (value of the most recent write, descriptor removed for signed secure-boot writes; never-written => error)",
+			"plus writes of db and of the ordinary variable through definitions carrying an extra attribute bit (APPEND_WRITE, NON_VOLATILE) read back through the stock definitions, from an empty and a pre-populated store (db as a dump has it, an ordinary variable stored with one attribute bit more than its definition); a state is the complete content of the store, reached by replay on a fresh instance, deduplicated exactly; the search runs to the depth bound or to the fixpoint. In every state every variable is read back (raw reader, typed accessor) and compared with the reference register model (value of the most recent write, descriptor removed for signed secure-boot writes; never-written => error)",
 		Assumptions: []string{"frozen clock (vtime) and memoised deterministic PKCS#1 v1.5 signatures make replays byte-identical", "register model: map variable -> last written value"},
 		Units:       func(tier string) []string { return []string{"empty-store", "prepopulated-store"} },
 		Run:         c12Run,
@@ -262,6 +286,7 @@ func c12Run(c *hx.Ctx, tier, unit string) {
 	initModel := map[int][]byte{}
 	if prepop {
 		initModel[0] = c12DBVals()[2].enc
+		initModel[2] = c12PreRaw
 	}
 	seen := map[string]bool{}
 	w0 := c12New(prepop)
